@@ -1,0 +1,77 @@
+//go:build verif
+
+// Contracts for package internal, read by the verification framework in /verif.
+// Comments only; compiled only under the build tag "verif".
+//
+// Abstract view of an *SM2Point p: pt(p) names the group element it represents.
+// Group elements are opaque; gmul(k) = [k]G, pmul(k,Q) = [k]Q, padd = group addition,
+// decode(x,y) = the finite point with affine coordinates (x,y), affx/affy/isinf observe it.
+
+package internal
+
+//@ define P = 0xfffffffeffffffffffffffffffffffffffffffff00000000ffffffffffffffff
+//@ define N = 0xfffffffeffffffffffffffffffffffff7203df6b21c6052b53bbf40939d54123
+//@ ghostfield pt Int
+//@ ghostfield fv Int
+//@ uf gmul Int
+//@ uf pmul Int
+//@ uf padd Int
+//@ uf decode Int
+//@ uf pinf Int
+//@ uf affx Int 0 P-1
+//@ uf affy Int 0 P-1
+//@ uf isinf Bool
+//@ uf oncurve Bool
+
+//@ func sm2/internal.NewSM2Point
+//@ mode int
+//@ ensures inf: isinf(pt(result))
+//@ assigns nothing
+
+//@ func sm2/internal.ScalarBaseMult
+//@ mode int
+//@ ensures badlen: len(k) != 32 ==> result0 == nil && nonnil(result1)
+//@ ensures ok: len(k) == 32 ==> !nonnil(result1) && result0 != nil && pt(result0) == gmul(be(k))
+//@ assigns nothing
+
+//@ func sm2/internal.ScalarMixedMult_Unsafe
+//@ mode int
+//@ requires glen: len(gScalar) == 32
+//@ requires slen: len(scalar) == 32
+//@ ensures ok: !nonnil(result1) && result0 != nil && pt(result0) == padd(gmul(be(gScalar)), pmul(be(scalar), pt(P)))
+//@ assigns nothing
+
+//@ func (*sm2/internal.SM2Point).Bytes_Unsafe
+//@ mode int
+//@ ensures inf: isinf(pt(p)) ==> len(result) == 1 && result[0] == 0
+//@ ensures fin: !isinf(pt(p)) ==> len(result) == 65 && cap(result) == 65 && result[0] == 4 && be(result[1:33]) == affx(pt(p)) && be(result[33:65]) == affy(pt(p))
+//@ assigns nothing
+
+//@ func (*sm2/internal.SM2Point).GetAffineX_Unsafe
+//@ mode int
+//@ ensures val: *result == ite(isinf(pt(p)), 0, affx(pt(p)))
+//@ assigns nothing
+
+//@ func (*sm2/internal.SM2Point).GetAffineX
+//@ mode int
+//@ ensures val: *result == ite(isinf(pt(p)), 0, affx(pt(p)))
+//@ assigns nothing
+
+//@ func (*sm2/internal.SM2Point).SetBytes
+//@ mode int
+//@ ensures fin: len(b) == 65 && b[0] == 4 && be(b[1:33]) < P && be(b[33:65]) < P && oncurve(be(b[1:33]), be(b[33:65])) ==> !nonnil(result1) && pt(p) == decode(be(b[1:33]), be(b[33:65])) && !isinf(pt(p))
+//@ ensures inf: len(b) == 1 && b[0] == 0 ==> !nonnil(result1) && isinf(pt(p))
+//@ ensures bad: !(len(b) == 1 && b[0] == 0) && !(len(b) == 65 && b[0] == 4 && be(b[1:33]) < P && be(b[33:65]) < P && oncurve(be(b[1:33]), be(b[33:65]))) ==> nonnil(result1) && pt(p) == old(pt(p))
+//@ returns_if (len(b) == 1 && b[0] == 0) || (len(b) == 65 && b[0] == 4 && be(b[1:33]) < P && be(b[33:65]) < P && oncurve(be(b[1:33]), be(b[33:65]))) : p
+//@ returns_else nil
+//@ assigns *p.x, *p.y, *p.z
+
+//@ func sm2/internal.Sm2CheckOnCurve
+//@ mode int
+//@ ensures val: !nonnil(result) == oncurve(fv(x), fv(y))
+//@ assigns nothing
+
+//@ func sm2/internal.GetN
+//@ mode int
+//@ ensures val: *result == N
+//@ assigns nothing
